@@ -29,6 +29,18 @@ def _with(pairs, **changes):
     return runner.params_to_text(list(d.items()))
 
 
+# inputs that state a parameter in BOTH its list form and its single-entry form: which one wins depends on the order in
+# which the reader walks its parameters - it must not depend on the hash seed
+BOTH_FORMS = [
+    [('Reservoir Model', '4'), ('Drawdown Parameter', '0.005'), ('Reservoir Depth', '3'), ('Number of Segments', '1'),
+     ('Gradients', '30, 40, 50, 60'), ('Gradient 1', '55'), ('End-Use Option', '1'), ('Power Plant Type', '1'),
+     ('Number of Production Wells', '2'), ('Number of Injection Wells', '2'), ('Plant Lifetime', '20'),
+     ('Print Output to Console', '0')],
+    [('Reservoir Model', '4'), ('Drawdown Parameter', '0.005'), ('Reservoir Depth', '3'), ('Number of Segments', '3'),
+     ('Gradients', '40, 50, 60, 70'), ('Gradient 2', '45'), ('Thicknesses', '1, 1.2, 1.4, 1.6'), ('Thickness 1', '0.8'),
+     ('End-Use Option', '2'), ('Power Plant Type', '9'), ('Number of Production Wells', '2'),
+     ('Number of Injection Wells', '2'), ('Plant Lifetime', '15'), ('Print Output to Console', '0')]]
+
 KEEP = {'Reservoir Model', 'End-Use Option', 'Power Plant Type', 'Economic Model', 'Print Output to Console',
         'Reservoir Volume Option', 'Number of Segments'}
 
@@ -53,7 +65,7 @@ def content_pool(ctx, n):
         src = full[2 + i % max(1, len(full) - 2)] if len(full) > 2 else BASE
         frac = rnd.choice([0.25, 0.5, 0.8])
         sparse.append([kv for kv in src if kv[0] in KEEP or rnd.random() > frac])
-    texts = [runner.params_to_text(p) for p in full + sparse]
+    texts = [runner.params_to_text(p) for p in full + sparse + BOTH_FORMS]
     failing = [_with(BASE, **{'End-Use Option': '9'}),        # rejected by the reader
                _with(BASE, Reservoir_Depth='0.1'),            # raises inside Calculate
                _with(BASE, Reservoir_Model='5')]              # sys.exit() (missing reservoir output file)
